@@ -139,7 +139,13 @@ def search(seed, tier, obligation, hints):
         why = check_dispatch(case)
         if why:
             return {"found": True, "input": {"dispatch": case}, "observed": {"function": "Simulator._trigger_event_*", "clause": why}, "witness_key": "dispatch|" + case["kind"], "cases": cases}
-    return {"found": False, "cases": cases}
+    # whole runs with a probe event (hooks of every kind, in configurations with several sessions / markets)
+    from . import whole_run
+    r2 = whole_run.search(seed, tier, obligation, hints)
+    if r2.get("found"):
+        r2["input"] = {"whole_run": r2["input"]}
+        return r2
+    return {"found": False, "cases": cases + r2.get("cases", 0)}
 
 
 def search_registration(seed, tier, obligation, hints):
@@ -155,6 +161,9 @@ def search_registration(seed, tier, obligation, hints):
 
 
 def replay(inp):
+    if "whole_run" in inp:
+        from . import whole_run
+        return whole_run.replay(inp["whole_run"])
     if "dispatch" in inp:
         why = check_dispatch(inp["dispatch"])
         return {"violated": bool(why), "clause": why}
